@@ -12,36 +12,74 @@ Import ListNotations.
 
 Section Den.
 Context {V : Type} (A : alg V).
+Variable U : list sig.                 (* the signal universe of the program *)
 
-Fixpoint den (vals : list V) (e : expr) : V :=
+(* a bundle is the map of its members as on a wire: a signal map, absent = 0 *)
+Definition bvals_t := list (smap V).
+
+Fixpoint den (vals : list V) (bvals : bvals_t) (e : expr) : V :=
   match e with
   | EInt z => a_const A z
-  | ELit _ v => den vals v
+  | ELit _ v => den vals bvals v
   | EVar i => nth i vals (a_const A 0)
-  | EBin o a b => a_arith A o (den vals a) (den vals b)
-  | ECmp o a b => a_cmp A o (den vals a) (den vals b)
-  | EAnd a b => a_and A (den vals a) (den vals b)
-  | EOr a b => a_or A (den vals a) (den vals b)
-  | ENot a => a_not A (den vals a)
-  | ENeg a => a_arith A Sub (a_const A 0) (den vals a)
-  | EProj a _ => den vals a
-  | ECond c v => a_ite A (den vals c) (den vals v) (a_const A 0)
+  | EBin o a b => a_arith A o (den vals bvals a) (den vals bvals b)
+  | ECmp o a b => a_cmp A o (den vals bvals a) (den vals bvals b)
+  | EAnd a b => a_and A (den vals bvals a) (den vals bvals b)
+  | EOr a b => a_or A (den vals bvals a) (den vals bvals b)
+  | ENot a => a_not A (den vals bvals a)
+  | ENeg a => a_arith A Sub (a_const A 0) (den vals bvals a)
+  | EProj a _ => den vals bvals a
+  | ECond c v => a_ite A (den vals bvals c) (den vals bvals v) (a_const A 0)
+  | ESel b s => get A (nth b bvals []) s
+  | EAny o b c =>
+      let m := nth b bvals [] in let x := den vals bvals c in
+      any_of A (map (fun s => let v := get A m s in a_and A v (a_cmp A o v x)) U)
+  | EAll o b c =>
+      let m := nth b bvals [] in let x := den vals bvals c in
+      all_of A (map (fun s => let v := get A m s in a_or A (a_not A v) (a_cmp A o v x)) U)
   end.
 
-Definition den_decl (vals : list V) (d : decl) : V :=
-  match d with
-  | DIn _ v => a_var A v
-  | DSig e => den vals e
-  | DInt e => den vals e
+(* bundles: member-wise, over the non-zero members only (a zero member is absent) *)
+Fixpoint bden (vals : list V) (bvals : bvals_t) (b : bexpr) : smap V :=
+  match b with
+  | BLit ms => map (fun se => (fst se, den vals bvals (snd se))) ms
+  | BRef i => nth i bvals []
+  | BMerge a b' => bden vals bvals a ++ bden vals bvals b'
+  | BArith o b' x =>
+      let m := bden vals bvals b' in let xv := den vals bvals x in
+      map (fun s => let v := get A m s in (s, a_ite A v (a_arith A o v xv) (a_const A 0))) U
+  | BFilter o b' x k =>
+      let m := bden vals bvals b' in let xv := den vals bvals x in
+      map (fun s => let v := get A m s in
+                    (s, a_ite A (a_and A v (a_cmp A o v xv))
+                              (match k with None => v | Some z => a_const A z end) (a_const A 0))) U
+  | BGate c b' =>
+      let m := bden vals bvals b' in let cv := den vals bvals c in
+      map (fun s => (s, a_ite A cv (get A m s) (a_const A 0))) U
   end.
+
+
+(* every declaration has a scalar slot and a bundle slot (the unused one is 0 / empty), so that
+   declaration numbers index both lists *)
+Definition den_decl (vals : list V) (bvals : bvals_t) (d : decl) : V * smap V :=
+  match d with
+  | DIn _ v => (a_var A v, [])
+  | DSig e => (den vals bvals e, [])
+  | DInt e => (den vals bvals e, [])
+  | DBundle b => (a_const A 0, bden vals bvals b)
+  | DSource c => (a_const A 0, map (fun sv => (fst sv, a_var A (snd sv))) c)
+  end.
+
+Fixpoint den_all_aux (vals : list V) (bvals : bvals_t) (ds : list decl) : list V * bvals_t :=
+  match ds with
+  | [] => (vals, bvals)
+  | d :: ds' => let '(v, m) := den_decl vals bvals d in den_all_aux (vals ++ [v]) (bvals ++ [m]) ds'
+  end.
+Definition den_all (ds : list decl) : list V * bvals_t := den_all_aux [] [] ds.
 
 (* values of all declarations, in program order; a declaration sees the earlier ones *)
-Fixpoint den_prog_aux (vals : list V) (ds : list decl) : list V :=
-  match ds with
-  | [] => vals
-  | d :: ds' => den_prog_aux (vals ++ [den_decl vals d]) ds'
-  end.
-Definition den_prog (ds : list decl) : list V := den_prog_aux [] ds.
+Definition den_prog (ds : list decl) : list V := fst (den_all ds).
+Definition bden_prog (ds : list decl) : bvals_t := snd (den_all ds).
 
 End Den.
 
@@ -59,6 +97,8 @@ Fixpoint ety (tys : list sty) (e : expr) : sty :=
   | ENeg a => ety tys a
   | EProj _ s => YSig s
   | ECond _ v => match ety tys v with YInt => YFree | t => t end
+  | ESel _ s => YSig s
+  | EAny _ _ _ | EAll _ _ _ => YFree
   end.
 
 Definition ety_decl (tys : list sty) (d : decl) : sty :=
@@ -67,6 +107,7 @@ Definition ety_decl (tys : list sty) (d : decl) : sty :=
   | DIn None _ => YFree
   | DSig e => match ety tys e with YInt => YFree | t => t end   (* an int stored in a Signal is untyped *)
   | DInt _ => YInt
+  | DBundle _ | DSource _ => YFree
   end.
 
 Fixpoint ety_prog_aux (tys : list sty) (ds : list decl) : list sty :=
@@ -79,26 +120,68 @@ Definition ety_prog (ds : list decl) : list sty := ety_prog_aux [] ds.
 (* ---- the two instances agree under every valuation *)
 Section DenHom.
 Context {V W : Type} (A : alg V) (B : alg W) (h : V -> W) (H : is_hom A B h).
+Variable U : list sig.
+Notation hmm := (hm h).
 
-Lemma den_hom vals e : h (den A vals e) = den B (map h vals) e.
+Lemma nth_hm i (bvals : list (smap V)) : hmm (nth i bvals []) = nth i (map hmm bvals) [].
+Proof. change (@nil (sig * W)) with (hmm []). symmetry. apply map_nth. Qed.
+
+Lemma den_hom vals bvals e : h (den A U vals bvals e) = den B U (map h vals) (map hmm bvals) e.
 Proof.
   induction e; cbn [den];
     rewrite ?(h_const A B h H), ?(h_arith A B h H), ?(h_cmp A B h H), ?(h_and A B h H),
             ?(h_or A B h H), ?(h_not A B h H), ?(h_ite A B h H), ?(h_const A B h H);
     try congruence.
   - rewrite <- (h_const A B h H). symmetry. apply map_nth.
+  - rewrite (get_hom A B h H), nth_hm. reflexivity.
+  - cbv zeta. rewrite (any_of_hom A B h H), map_map. f_equal. apply map_ext. intros s.
+    rewrite (h_and A B h H), (h_cmp A B h H), (get_hom A B h H), nth_hm, IHe. reflexivity.
+  - cbv zeta. rewrite (all_of_hom A B h H), map_map. f_equal. apply map_ext. intros s.
+    rewrite (h_or A B h H), (h_not A B h H), (h_cmp A B h H), (get_hom A B h H), nth_hm, IHe. reflexivity.
 Qed.
 
-Lemma den_decl_hom vals d : h (den_decl A vals d) = den_decl B (map h vals) d.
-Proof. destruct d; cbn [den_decl]; [apply (h_var A B h H) | apply den_hom | apply den_hom]. Qed.
-
-Lemma den_prog_aux_hom ds : forall vals,
-  map h (den_prog_aux A vals ds) = den_prog_aux B (map h vals) ds.
+Lemma bden_hom vals bvals b : hmm (bden A U vals bvals b) = bden B U (map h vals) (map hmm bvals) b.
 Proof.
-  induction ds as [|d ds IH]; intros vals; cbn [den_prog_aux]; [reflexivity|].
-  rewrite IH, map_app. cbn [map]. rewrite den_decl_hom. reflexivity.
+  induction b; cbn [bden].
+  - unfold hm. rewrite map_map. apply map_ext. intros [s e]. cbn [fst snd]. rewrite den_hom. reflexivity.
+  - apply nth_hm.
+  - rewrite hm_app, IHb1, IHb2. reflexivity.
+  - cbv zeta. unfold hm at 1. rewrite map_map. apply map_ext. intros s. cbn [fst snd].
+    rewrite (h_ite A B h H), (h_arith A B h H), (h_const A B h H), (get_hom A B h H), IHb, den_hom. reflexivity.
+  - cbv zeta. unfold hm at 1. rewrite map_map. apply map_ext. intros s. cbn [fst snd].
+    rewrite (h_ite A B h H), (h_and A B h H), (h_cmp A B h H), (h_const A B h H), (get_hom A B h H), IHb, den_hom.
+    destruct k; [rewrite (h_const A B h H) | rewrite (get_hom A B h H), IHb]; reflexivity.
+  - cbv zeta. unfold hm at 1. rewrite map_map. apply map_ext. intros s. cbn [fst snd].
+    rewrite (h_ite A B h H), (h_const A B h H), (get_hom A B h H), IHb, den_hom. reflexivity.
 Qed.
 
-Theorem den_prog_hom ds : map h (den_prog A ds) = den_prog B ds.
-Proof. apply den_prog_aux_hom. Qed.
+Lemma den_decl_hom vals bvals d :
+  (h (fst (den_decl A U vals bvals d)), hmm (snd (den_decl A U vals bvals d)))
+  = den_decl B U (map h vals) (map hmm bvals) d.
+Proof.
+  destruct d; cbn [den_decl fst snd].
+  - rewrite (h_var A B h H). reflexivity.
+  - rewrite den_hom. reflexivity.
+  - rewrite den_hom. reflexivity.
+  - rewrite (h_const A B h H), bden_hom. reflexivity.
+  - rewrite (h_const A B h H). f_equal. unfold hm. rewrite map_map. apply map_ext.
+    intros [s v]. cbn [fst snd]. rewrite (h_var A B h H). reflexivity.
+Qed.
+
+Lemma den_all_aux_hom ds : forall vals bvals,
+  (map h (fst (den_all_aux A U vals bvals ds)), map hmm (snd (den_all_aux A U vals bvals ds)))
+  = den_all_aux B U (map h vals) (map hmm bvals) ds.
+Proof.
+  induction ds as [|d ds IH]; intros vals bvals; cbn [den_all_aux]; [reflexivity|].
+  pose proof (den_decl_hom vals bvals d) as E.
+  destruct (den_decl A U vals bvals d) as [v m]. destruct (den_decl B U (map h vals) (map hmm bvals) d) as [v' m'].
+  cbn [fst snd] in E. inversion E; subst.
+  rewrite IH, !map_app. reflexivity.
+Qed.
+
+Theorem den_prog_hom ds : map h (den_prog A U ds) = den_prog B U ds.
+Proof. unfold den_prog, den_all. pose proof (den_all_aux_hom ds [] []) as E. apply (f_equal fst) in E. exact E. Qed.
+
+Theorem bden_prog_hom ds : map hmm (bden_prog A U ds) = bden_prog B U ds.
+Proof. unfold bden_prog, den_all. pose proof (den_all_aux_hom ds [] []) as E. apply (f_equal snd) in E. exact E. Qed.
 End DenHom.
